@@ -35,7 +35,7 @@ class Unsupported(Exception):
     pass
 
 
-LEAN_T = {"I": "Int", "F": "Rat", "B": "Bool", "L": "List Int"}
+LEAN_T = {"I": "Int", "F": "Rat", "B": "Bool", "L": "List Int", "S": "String", "OF": "Option Rat"}
 IDENT = {"float", "JulianDate", "ScenarioTime", "cls"}
 
 
@@ -60,11 +60,12 @@ class FnTr:
             raise Unsupported(f"{lean_name}: only positional parameters")
         self.params = []
         for a in args:
-            if a == "cls":
+            if a == "cls" or ptypes.get(a) == "-":
                 continue
             if a not in ptypes:
                 raise Unsupported(f"{lean_name}: no declared type for parameter {a}")
             self.params.append((a, ptypes[a]))
+        self.extra_params = []
         self.aux = []  # auxiliary definitions (loops)
         self.guards = []
         self.ret_type = None
@@ -79,6 +80,8 @@ class FnTr:
     def toF(self, e, t):
         if t == "F":
             return e
+        if t == "OF":  # an optional float used as a number: only reached behind its `is not None` test
+            return f"({e}.getD 0)"
         if t == "I":
             m = re.fullmatch(r"\((-?\d+) : Int\)", e)
             return f"({m.group(1)} : Rat)" if m else f"(({e} : Int) : Rat)"
@@ -95,6 +98,26 @@ class FnTr:
         return f"({fn} {fa} {fb})", "F"
 
     def expr(self, n, env):
+        key = ast.unparse(n) if isinstance(n, (ast.Attribute, ast.Subscript, ast.Call)) else None
+        if key is not None and key in self.consts:
+            e, t = self.consts[key]
+            return (f"({e} = true)" if t == "B" else e), t
+        if isinstance(n, ast.Call) and ast.unparse(n.func) in self.consts:
+            e, t = self.consts[ast.unparse(n.func)]
+            return (f"({e} = true)" if t == "B" else e), t
+        if isinstance(n, ast.Attribute) and isinstance(n.value, ast.Name) and n.value.id == "Explanation":
+            return f"\"{n.attr}\"", "S"
+        if isinstance(n, ast.UnaryOp) and isinstance(n.op, ast.Not):
+            e, t = self.expr(n.operand, env)
+            if t != "B":
+                raise Unsupported("not on a non-boolean")
+            return f"(¬ {e})", "B"
+        if isinstance(n, ast.Compare) and len(n.ops) == 1 and isinstance(n.ops[0], (ast.IsNot, ast.Is)) \
+                and isinstance(n.comparators[0], ast.Constant) and n.comparators[0].value is None:
+            e, t = self.expr(n.left, env)
+            if t != "OF":
+                raise Unsupported("None test on a non-optional")
+            return (f"({e}.isSome = true)" if isinstance(n.ops[0], ast.IsNot) else f"({e}.isNone = true)"), "B"
         if isinstance(n, ast.Constant):
             if isinstance(n.value, bool):
                 return ("True" if n.value else "False"), "B"
@@ -139,7 +162,7 @@ class FnTr:
             for op, right in zip(n.ops, n.comparators):
                 a, ta = self.expr(left, env)
                 b, tb = self.expr(right, env)
-                if ta != tb:
+                if ta != tb or ta == "OF":
                     a, b = self.toF(a, ta), self.toF(b, tb)
                 sym = {ast.Lt: "<", ast.LtE: "≤", ast.Gt: ">", ast.GtE: "≥", ast.Eq: "=", ast.NotEq: "≠"}.get(type(op))
                 if sym is None:
@@ -249,7 +272,7 @@ class FnTr:
             if isinstance(s.value, ast.Tuple):
                 parts = [self.expr(x, env) for x in s.value.elts]
                 self.ret_type = tuple(t for _, t in parts)
-                return "(" + ", ".join(e for e, _ in parts) + ")"
+                return "(" + ", ".join((f"decide {e}" if t == "B" else e) for e, t in parts) + ")"
             e, t = self.expr(s.value, env)
             self.ret_type = t
             return f"decide {e}" if t == "B" else e
@@ -368,7 +391,7 @@ class FnTr:
 
         self.block = tracking_block
         body = self.block(body_stmts, env, lambda e: (_ for _ in ()).throw(Unsupported("function falls off its end")), 1)
-        ps = " ".join(f"({self.v(a)} : {lean_ty(t)})" for a, t in self.params)
+        ps = " ".join(f"({self.v(a)} : {lean_ty(t)})" for a, t in self.params + self.extra_params)
         out = "".join(self.aux)
         out += f"/-- `{self.fdef.name}` (line {self.fdef.lineno}), translated statement by statement -/\n"
         out += f"def {self.lean_name} {ps} : {lean_ty(self.ret_type)} :=\n  {body}\n"
@@ -414,6 +437,26 @@ TARGETS = {
             ("ScenarioTime.convertToJulianDate", "convertToJulianDate", {"self": "F", "julian_date_start": "F"}, 0),
         ],
     },
+    "Sensors": {
+        "file": "sensors/sensor_base.py",
+        "mode": "exact",
+        "fns": [
+            ("Sensor.isVisible", "sensorIsVisible",
+             {"self": "-", "tgt_eci_state": "-", "viz_cross_section": "-", "reflectivity": "-", "slant_range_sez": "-"}, 0,
+             {"params": [("minimum_range", "OF"), ("maximum_range", "OF"), ("range_", "F"), ("los", "B"), ("az", "F"),
+                         ("el", "F"), ("el0", "F"), ("el1", "F"), ("az0", "F"), ("az1", "F")],
+              "consts": {"self.minimum_range": ("minimum_range", "OF"), "self.maximum_range": ("maximum_range", "OF"),
+                         "getRange": ("range_", "F"), "lineOfSight": ("los", "B"), "getAzimuth": ("az", "F"),
+                         "getElevation": ("el", "F"), "self.el_mask[0]": ("el0", "F"), "self.el_mask[1]": ("el1", "F"),
+                         "self.az_mask[0]": ("az0", "F"), "self.az_mask[1]": ("az1", "F")}}),
+            ("Radar.isVisible", "radarIsVisible",
+             {"self": "-", "tgt_eci_state": "-", "viz_cross_section": "-", "reflectivity": "-", "slant_range_sez": "-"}, 0,
+             {"file": "sensors/radar.py",
+              "params": [("base_ok", "B"), ("base_reason", "S"), ("range_", "F"), ("max_range_to", "F")],
+              "consts": {"super().isVisible": ("(base_ok, base_reason)", ("B", "S")), "getRange": ("range_", "F"),
+                         "self.maximumRangeTo": ("max_range_to", "F")}}),
+        ],
+    },
     "Maths": {
         "file": "physics/maths.py",
         "mode": "exact",
@@ -456,10 +499,12 @@ class _MethodOps(ast.NodeTransformer):
 
 def generate(module):
     spec = TARGETS[module]
-    tree = ast.parse((SRC / spec["file"]).read_text())
     known = {}
     chunks = []
-    for qual, lean_name, ptypes, fuel in spec["fns"]:
+    for ent in spec["fns"]:
+        qual, lean_name, ptypes, fuel = ent[:4]
+        extra = ent[4] if len(ent) > 4 else {}
+        tree = ast.parse((SRC / extra.get("file", spec["file"])).read_text())
         fdef = find_def(tree, qual)
         fdef = _Isinstance().visit(ast.parse(ast.unparse(fdef)).body[0])
         table = {}
@@ -470,7 +515,8 @@ def generate(module):
         if table:
             fdef = _MethodOps(table).visit(fdef)
             ast.fix_missing_locations(fdef)
-        tr = FnTr(lean_name, fdef, spec["mode"], ptypes, CONSTS, known, fuel)
+        tr = FnTr(lean_name, fdef, spec["mode"], ptypes, dict(CONSTS, **extra.get("consts", {})), known, fuel)
+        tr.extra_params = list(extra.get("params", []))
         # a guard `if False: raise` left by the isinstance rewrite is dropped
         fdef.body = [s for s in fdef.body if not (isinstance(s, ast.If) and isinstance(s.test, ast.Constant) and s.test.value is False)]
         chunks.append(tr.translate())
